@@ -30,6 +30,7 @@ import (
 	"github.com/icon-project/goloop/common/codec"
 	"github.com/icon-project/goloop/common/log"
 	"github.com/icon-project/goloop/consensus"
+	"github.com/icon-project/goloop/consensus/fastsync"
 	"github.com/icon-project/goloop/module"
 	"github.com/icon-project/goloop/test"
 )
@@ -586,6 +587,12 @@ func (r *c01Runner) onFinalize(h int64, id []byte) {
 		r.o.Check(old == lab, "two-blocks-finalized-at-one-height", "height %d finalized %s and %s", h, old, lab)
 	}
 	r.finalized[h] = lab
+	// finalized block == the block carried by +2/3 precommits of one round among everything the engine saw
+	quorum := false
+	for rd := int64(0); rd < 64 && !quorum; rd++ {
+		quorum = r.countDelivered(1, h, rd, lab) > r.n*2/3
+	}
+	r.o.Check(quorum, "finalized-block-without-commit-quorum", "height %d: finalized block %s has no +2/3 precommits in any round among the votes shown to the engine", h, lab)
 }
 
 // onSigned: a signed proposal / vote is handed to the network.  Returns false if the
@@ -938,7 +945,7 @@ func (r *c01Runner) finish(down bool) string {
 	return line
 }
 
-func (r *c01Runner) mkVote(sg int, h int64, t int, rd int32, v string) ([]byte, bool) {
+func (r *c01Runner) mkVoteMsg(sg int, h int64, t int, rd int32, v string) (*consensus.VoteMessage, bool) {
 	var vm *consensus.VoteMessage
 	if v == "-" {
 		vm = consensus.NewVoteMessage(r.wallets[sg], consensus.VoteType(t), h, rd, r.nidBS, nil, 1000+int64(h), nil, nil, 0)
@@ -959,7 +966,45 @@ func (r *c01Runner) mkVote(sg int, h int64, t int, rd int32, v string) ([]byte, 
 			}
 		}
 	}
+	return vm, true
+}
+
+func (r *c01Runner) mkVote(sg int, h int64, t int, rd int32, v string) ([]byte, bool) {
+	vm, ok := r.mkVoteMsg(sg, h, t, rd, v)
+	if !ok {
+		return nil, false
+	}
 	return codec.MustMarshalToBytes(vm), true
+}
+
+// c01BlockResult is what the fast-sync client hands to the engine (fastsync.BlockResult)
+type c01BlockResult struct {
+	blk      module.BlockData
+	votes    []byte
+	consumed bool
+	rejected bool
+}
+
+func (b *c01BlockResult) Block() module.BlockData { return b.blk }
+func (b *c01BlockResult) Votes() []byte           { return b.votes }
+func (b *c01BlockResult) Consume()                { b.consumed = true }
+func (b *c01BlockResult) Reject()                 { b.rejected = true }
+
+func (r *c01Runner) blockData(b *c01Block) module.BlockData {
+	if b.blkData != nil {
+		return b.blkData
+	}
+	ps := consensus.NewPartSetFromID(b.psid)
+	pt, err := consensus.NewPart(b.part)
+	if err != nil || ps.AddPart(pt) != nil || !ps.IsComplete() {
+		return nil
+	}
+	blk, err := r.node.BM.NewBlockDataFromReader(ps.NewReader())
+	if err != nil {
+		return nil
+	}
+	b.blkData = blk
+	return blk
 }
 
 func (r *c01Runner) doEvent(toks []string) (string, bool) {
@@ -1045,6 +1090,49 @@ func (r *c01Runner) doEvent(toks []string) (string, bool) {
 		}
 		_, _ = r.reactor().OnReceive(consensus.ProtoVote, bs, peer)
 		r.o.Count("ev-vote")
+	case "sync":
+		// block sync: block `lab` of height h with the round-rd precommits of the given validators arrives
+		// through ReceiveBlockResult (the fast-sync callback) instead of gossip
+		if len(toks) != 5 || !r.up {
+			return "bad-op", false
+		}
+		h, rd, lab := atoi(toks[1]), atoi(toks[2]), atoi(toks[3])
+		b := r.byLabel[lab]
+		if b == nil || b.part == nil || !r.candidate(lab) {
+			return "bad-op", false
+		}
+		var vms []*consensus.VoteMessage
+		for _, f := range strings.Split(toks[4], ",") {
+			sg := atoi(f)
+			if sg < 0 || sg >= r.n {
+				return "bad-op", false
+			}
+			vm, ok := r.mkVoteMsg(sg, int64(h), 1, int32(rd), toks[3])
+			if !ok {
+				return "bad-op", false
+			}
+			vms = append(vms, vm)
+			r.delivered[fmt.Sprintf("%d.%d.%d.%d.%s", sg, 1, h, rd, toks[3])] = true
+		}
+		if len(vms) == 0 {
+			return "bad-op", false
+		}
+		blk := r.blockData(b)
+		if blk == nil {
+			return "fixture-error", false
+		}
+		br := &c01BlockResult{blk: blk, votes: consensus.NewCommitVoteList(nil, vms...).Bytes()}
+		r.node.CS.(interface {
+			ReceiveBlockResult(fastsync.BlockResult)
+		}).ReceiveBlockResult(br)
+		switch {
+		case br.rejected:
+			r.o.Count("ev-sync-rejected")
+		case br.consumed:
+			r.o.Count("ev-sync-consumed")
+		default:
+			r.o.Count("ev-sync-queued")
+		}
 	case "tmo":
 		if len(toks) != 2 || !r.up {
 			return "bad-op", false
@@ -1303,6 +1391,9 @@ func (c *c01G) round(h, r int, locked *int) (committed bool) {
 		c.emit("tmo 3")
 	}
 	c.noise(h, r)
+	if g.Intn(25) == 0 {
+		c.sync(h, r+g.Intn(2), c.anyBlock())
+	}
 	if *locked >= 0 && r >= 2 && g.Intn(5) == 0 {
 		// delayed polka of an old round for another block
 		b3 := c.anyBlock()
@@ -1555,6 +1646,79 @@ func (c *c01G) proposerCrashScript() {
 	}
 }
 
+func (c *c01G) signers(k int) string {
+	o := c.others()
+	if k > len(o) {
+		k = len(o)
+	}
+	ss := make([]string, k)
+	for i := 0; i < k; i++ {
+		ss[i] = strconv.Itoa(o[i])
+	}
+	return strings.Join(ss, ",")
+}
+
+// block sync: the other validators finalized block b in round r; the partitioned validator receives the
+// block and its commit votes through the fast-sync callback
+func (c *c01G) sync(h, r, b int) {
+	q := c.n*2/3 + 1
+	k := q
+	switch c.g.Intn(8) {
+	case 0:
+		k = q - 1 // not a quorum: must be rejected
+	case 1:
+		k = c.n - 1
+	}
+	c.emit("sync %d %d %d %s", h, r, b, c.signers(k))
+}
+
+// the validator is cut off at an arbitrary point of a round — in particular after it has validated (and
+// prevoted / locked) a proposal — and later catches up through block sync with a block decided elsewhere
+func (c *c01G) syncScript() {
+	h := 1
+	q := c.n*2/3 + 1
+	r0 := 0
+	if c.proposer(h, 0) == c.me {
+		r0 = 1
+		c.emit("tmo 3")
+		c.votes(h, 0, 0, -1, q-1)
+		c.votes(h, 1, 0, -1, q-1)
+	}
+	x := c.blockBy(c.proposer(h, r0))
+	y := x
+	if c.g.Intn(5) != 0 {
+		for y == x {
+			y = c.anyBlock()
+		}
+	}
+	c.emit("prop %d %d %d %d -1", c.proposer(h, r0), h, r0, x)
+	c.emit("part %d %d", h, x) // validated + prevoted
+	// how far the validator gets before it is partitioned
+	switch c.g.Intn(5) {
+	case 0:
+	case 1:
+		c.votes(h, 0, r0, x, 1)
+	case 2:
+		c.votes(h, 0, r0, -1, q-1)
+		c.emit("tmo 5")
+	case 3:
+		c.votes(h, 0, r0, x, q-1) // polka: locked on x, precommitted x
+	default:
+		c.votes(h, 0, r0, x, q-1)
+		c.votes(h, 1, r0, -1, q-1)
+		c.emit("tmo 7")
+		c.emit("tmo 3")
+	}
+	if c.g.Intn(3) == 0 {
+		c.emit("part %d %d", h, y)
+	}
+	c.sync(h, r0+c.g.Intn(3), y)
+	c.noise(h, r0)
+	c.emit("tmo 3")
+	c.votes(h+1, 0, 0, -1, q-1)
+	c.emit("tmo 5")
+}
+
 func c01GenWith(g *Gen, crashy int, die bool) {
 	for i := 0; i < g.N; i++ {
 		n := 4
@@ -1570,7 +1734,9 @@ func c01GenWith(g *Gen, crashy int, die bool) {
 			g.Emit("init %d %d", c.n, c.me)
 		}
 		g.Emit("start")
-		if c.file && n == 4 && c.proposer(1, 0) != c.me && g.Intn(3) == 0 {
+		if !c.file && g.Intn(7) == 0 {
+			c.syncScript()
+		} else if c.file && n == 4 && c.proposer(1, 0) != c.me && g.Intn(3) == 0 {
 			c.fileCrashScript()
 		} else if die && n == 4 && c.proposer(1, 0) != c.me && g.Intn(8) == 0 {
 			c.proposerCrashScript()
